@@ -24,7 +24,7 @@ for d in sorted(glob.glob(os.path.join(ROOT, "seeded", "C*"))):
     m = json.load(open(os.path.join(d, "meta.json")))
     rc, summ = ev.get(name, ("?", ""))
     verdict = {"1": "VIOLATION reported", "0": "**missed**", "3": "harness error"}.get(rc, "not run")
-    first = "missed at first" if ("MISSED at first" in m["checks_run"] or "not reported" in m["checks_run"]) \
+    first = "missed at first" if ("missed at first" in m["checks_run"].lower() or "not reported" in m["checks_run"]) \
         else "caught as built"
     rows.append((name, m["property"], ", ".join(os.path.basename(f) for f in m["files_changed"]),
                  m["needs_to_manifest"], first, verdict, m["checks_run"]))
